@@ -9,10 +9,9 @@ Local Open Scope list_scope.
    iff the original order does and yields a state no renderer can tell apart (render = any function of the slots
    that sees _foreign_table only through with_namespace, as get_sql does).  For every term type and every
    choice of the term observations, every start state, every two lists. *)
-Definition C08_interleavings (on_fragment : bool) : Prop :=
+Definition C08_interleavings : Prop :=
   forall (term : Type) ft fnd and_ ie fo wi st iss selt mkr ra (s0 : qstate term) (l1 l2 : list (call term)),
     all_commuting term l1 = true ->
-    (if on_fragment then fragment term l1 else True) ->
     same_kind_order term l1 l2 ->
     forall q1, run term ft fnd and_ ie fo wi st iss selt mkr ra s0 l1 = Ok q1 ->
     exists q2, run term ft fnd and_ ie fo wi st iss selt mkr ra s0 l2 = Ok q2
@@ -49,62 +48,16 @@ Definition C08_clause_order : Prop :=
   /\ no_return pagination_clickhouse_table = ["limit_by"; "super_pagination"].
 
 Definition C08_full_statement : Prop :=
-  C08_interleavings false /\ C08_accumulate /\ C08_clause_order.
+  C08_interleavings /\ C08_accumulate /\ C08_clause_order.
 
-(* ---- the full statement is false: do_join's automatic alias  <table><k>  reads _with at call time -------------- *)
-(* (until pypika 160d589 the witness was JoinOn.validate reading _with; that one is repaired, see
-   C08_with_reference_any_order below; the numbered alias introduced by 10401de consults the WITH names) *)
-Definition w_s0 : cstate := match crun (init cterm) [CFrom _ (Tab "a" None) 0%Z] with Ok s => s | Err _ => init cterm end.
-Definition w_sub : cterm := CArg "#sub" [] [] None false false.
-Definition w_crit : cterm := CArg "#a.x==a_.y" [Some (Tab "a" None)] [Some (Tab "a" None); Some (Tab "a" None)] None false false.
-Definition w_with : ccall := CWith _ "a2" w_sub.
-Definition w_join : ccall := CJoin _ (Tab "a" None) "inner" (JSOn _ w_crit None).
-Definition w_select : ccall := CSelect _ [SStr _ "x"].
-
-Theorem C08_refuted : ~ C08_full_statement.
-Proof.
-  intros [H _].
-  assert (Hk : same_kind_order cterm [w_with; w_join; w_select] [w_join; w_with; w_select])
-    by (intro k; destruct k; reflexivity).
-  assert (Hr : exists q1, crun w_s0 [w_with; w_join; w_select] = Ok q1
-                          /\ q_joins _ q1 = [JOn _ (Tab "a" (Some "a3")) "inner" w_crit None])
-    by (vm_compute; eexists; split; reflexivity).
-  destruct Hr as [q1 [Hr Hj]].
-  destruct (H cterm c_fields_tables c_find_tables c_and c_is_empty CFieldOf CInt CStar c_is_star c_sel_table CRollupT
-              c_rollup_args w_s0 [w_with; w_join; w_select] [w_join; w_with; w_select] eq_refl I Hk q1 Hr)
-    as [q2 [H2 [[E _] _]]].
-  pose proof (E S_joins eq_refl) as Ej. simpl in Ej. rewrite Hj in Ej.
-  vm_compute in H2. injection H2 as <-. vm_compute in Ej. discriminate.
-Qed.
-Print Assumptions C08_refuted.
-
-(* the witness, spelled out: WITH a2 first -> the joined "a" is named a3; join first -> it is named a2 *)
-Example C08_witness :
-  (exists q, crun w_s0 [w_with; w_join; w_select] = Ok q
-             /\ map d_join (q_joins _ q) = ["ON(T(a,a3)|inner|#a.x==a_.y|~)"])
-  /\ (exists q, crun w_s0 [w_join; w_with; w_select] = Ok q
-                /\ map d_join (q_joins _ q) = ["ON(T(a,a2)|inner|#a.x==a_.y|~)"])
-  /\ fragmentb cterm [w_with; w_join; w_select] = false.
-Proof. split; [vm_compute; eexists; split; reflexivity|]. split; [vm_compute; eexists; split; reflexivity|reflexivity]. Qed.
-Print Assumptions C08_witness.
-
-(* regression of the repaired finding (pypika 160d589): a join criterion naming a WITH query is accepted before and
-   after with_(), with the same state; and that list is inside the fragment *)
-Definition v_crit : cterm := CArg "#w.x==v.x" [Some (Tab "v" None); Some (Wq "w")] [Some (Wq "w"); Some (Tab "v" None)] None false false.
-Definition v_with : ccall := CWith _ "w" w_sub.
-Definition v_join : ccall := CJoin _ (Tab "v" None) "inner" (JSOn _ v_crit None).
-Example C08_with_reference_any_order :
-  (exists q, crun w_s0 [v_with; v_join; w_select] = Ok q /\ crun w_s0 [v_join; v_with; w_select] = Ok q)
-  /\ fragmentb cterm [v_with; v_join; w_select] = true.
-Proof. split; [vm_compute; eexists; split; reflexivity|reflexivity]. Qed.
-Print Assumptions C08_with_reference_any_order.
-
-(* ---- it holds whenever no WITH name added in the list starts with the name of an un-aliased table joined in it ---- *)
-Theorem C08_on_fragment : C08_interleavings true /\ C08_accumulate /\ C08_clause_order.
+(* ---- the full statement holds (since pypika 160d589 + 2def80d no clause-adding call reads what a call of another
+   kind writes, except _validate_table reading _joins, which only moves the _foreign_table flag under a forced
+   with_namespace) -------------------------------------------------------------------------------------------- *)
+Theorem C08_holds : C08_full_statement.
 Proof.
   split; [|split].
-  - intros term ft fnd and_ ie fo wi st iss selt mkr ra s0 l1 l2 Hc Hf Hk q1 Hr.
-    destruct (interleaving_commutes term ft fnd and_ ie fo wi st iss selt mkr ra s0 l1 l2 Hc Hf Hk q1 Hr) as [q2 [H2 E]].
+  - intros term ft fnd and_ ie fo wi st iss selt mkr ra s0 l1 l2 Hc Hk q1 Hr.
+    destruct (interleaving_commutes term ft fnd and_ ie fo wi st iss selt mkr ra s0 l1 l2 Hc Hk q1 Hr) as [q2 [H2 E]].
     exists q2. split; [exact H2|]. split; [exact E|].
     intros T R. apply render_equiv. exact E.
   - intros term ft fnd and_ ie fo wi st iss selt mkr ra s0 q l H.
@@ -115,7 +68,38 @@ Proof.
     intro Hc. eapply orderbys_accumulate; eauto.
   - vm_compute. repeat split.
 Qed.
-Print Assumptions C08_on_fragment.
+Print Assumptions C08_holds.
+
+(* do_join as written builds base_tables with self._with; the model's step uses the equal function that does not *)
+Theorem C08_do_join_ignores_with : forall term fnd fr upd w joins cnt item how spec,
+  step_join_code term fnd fr upd w joins cnt item how spec = step_join term fnd fr upd joins cnt item how spec.
+Proof. exact step_join_code_eq. Qed.
+Print Assumptions C08_do_join_ignores_with.
+
+(* ---- regressions of the two repaired findings --------------------------------------------------------------- *)
+Definition w_s0 : cstate := match crun (init cterm) [CFrom _ (Tab "a" None) 0%Z] with Ok s => s | Err _ => init cterm end.
+Definition w_sub : cterm := CArg "#sub" [] [] None false false.
+Definition w_select : ccall := CSelect _ [SStr _ "x"].
+(* C08-with-join-autoalias (10401de, repaired by 2def80d): the numbered alias of a re-joined table is a2 whether the
+   WITH query a2 is attached before or after the join *)
+Definition w_crit : cterm := CArg "#a.x==a_.y" [Some (Tab "a" None)] [Some (Tab "a" None); Some (Tab "a" None)] None false false.
+Definition w_with : ccall := CWith _ "a2" w_sub.
+Definition w_join : ccall := CJoin _ (Tab "a" None) "inner" (JSOn _ w_crit None).
+Example C08_autoalias_any_order :
+  exists q, crun w_s0 [w_with; w_join; w_select] = Ok q /\ crun w_s0 [w_join; w_with; w_select] = Ok q
+            /\ map d_join (q_joins _ q) = ["ON(T(a,a2)|inner|#a.x==a_.y|~)"].
+Proof. vm_compute. eexists. repeat split. Qed.
+Print Assumptions C08_autoalias_any_order.
+
+(* C08-with-join-validation (repaired by 160d589): a join criterion naming a WITH query is accepted before and after
+   with_(), with the same state *)
+Definition v_crit : cterm := CArg "#w.x==v.x" [Some (Tab "v" None); Some (Wq "w")] [Some (Wq "w"); Some (Tab "v" None)] None false false.
+Definition v_with : ccall := CWith _ "w" w_sub.
+Definition v_join : ccall := CJoin _ (Tab "v" None) "inner" (JSOn _ v_crit None).
+Example C08_with_reference_any_order :
+  exists q, crun w_s0 [v_with; v_join; w_select] = Ok q /\ crun w_s0 [v_join; v_with; w_select] = Ok q.
+Proof. vm_compute. eexists. split; reflexivity. Qed.
+Print Assumptions C08_with_reference_any_order.
 
 (* the parts of the argument, under their own names *)
 Theorem C08_step_writes : forall term ft fnd and_ ie fo wi st iss selt mkr ra c s s',
@@ -138,7 +122,6 @@ Print Assumptions C08_footprints.
 Theorem C08_swap_adjacent : forall term ft fnd and_ ie fo wi st iss selt mkr ra s c1 c2 a b,
   commuting (kind_of term c1) = true -> commuting (kind_of term c2) = true ->
   kind_eqb (kind_of term c1) (kind_of term c2) = false ->
-  compat term c1 c2 = true -> compat term c2 c1 = true ->
   step term ft fnd and_ ie fo wi st iss selt mkr ra s c1 = Ok a -> step term ft fnd and_ ie fo wi st iss selt mkr ra a c2 = Ok b ->
   exists a' b', step term ft fnd and_ ie fo wi st iss selt mkr ra s c2 = Ok a'
                 /\ step term ft fnd and_ ie fo wi st iss selt mkr ra a' c1 = Ok b' /\ equiv term b b'.
@@ -168,7 +151,6 @@ Definition ex_s0 : cstate := match crun (init cterm) [CFrom _ ex_t 0%Z] with Ok 
 
 Example C08_example :
   all_commuting cterm ex_calls = true
-  /\ fragmentb cterm ex_calls = true
   /\ (forall k, kfilter cterm k ex_calls = kfilter cterm k (pick ex_calls ex_perm))
   /\ (exists q1 q2, crun ex_s0 ex_calls = Ok q1 /\ crun ex_s0 (pick ex_calls ex_perm) = Ok q2
         /\ q_foreign_table _ q1 = true /\ q_foreign_table _ q2 = false     (* the call-time flag differs ... *)
@@ -177,7 +159,7 @@ Example C08_example :
         /\ q_havings _ q1 = Some (CAnd (ex_arg "#h1" []) (ex_arg "#h2" [])))
   /\ select_branch expected_get_sql_table = canonical_select_order.
 Proof.
-  split; [reflexivity|]. split; [reflexivity|]. split; [intro k; destruct k; reflexivity|].
+  split; [reflexivity|]. split; [intro k; destruct k; reflexivity|].
   split; [|reflexivity].
   vm_compute. eexists. eexists. repeat split.
 Qed.
